@@ -259,3 +259,48 @@ def sites_via_helpers(prog, body, target):
             if c in ws:
                 out.append((bi, t))
     return out
+
+
+def root_of_ref(body, local, limit=10):
+    """follow `_x = &mut y`, `_x = &mut (*y)`, `_x = copy/move y` back to the variable that is borrowed"""
+    l = local
+    for _ in range(limit):
+        if body.locals[l].get("n") and l > body.argc:
+            break                      # a named user variable: this is the thing that is borrowed
+        ds = [d for d in body.defs.get(l, []) if not d[2]["p"]]
+        if len(ds) != 1:
+            break
+        rv = ds[0][3]
+        if rv["k"] == "use":
+            p = op_place(rv["op"])
+        elif rv["k"] in ("ref", "rawptr"):
+            p = rv["place"]
+        else:
+            break
+        if p is None or any(e != "*" for e in p["p"]):
+            break
+        l = p["l"]
+    return l
+
+
+def receiver_call_sites(prog, body, target, depth=0):
+    """(block, receiver root local, line) for every call in `body` that invokes `target` on a receiver that is (a borrow of) a local of
+    `body`: directly, or through a workspace helper that calls `target` on one of its own parameters (one or two levels)"""
+    out = []
+    for bi, t in calls(body, target):
+        p = op_place(t["args"][0]) if t["args"] else None
+        if p is not None and not [e for e in p["p"] if e != "*"]:
+            out.append((bi, root_of_ref(body, p["l"]), t.get("line")))
+    if depth >= 2:
+        return out
+    for bi, t in body.calls():
+        c = body.callee(t) or body.callee_decl(t) or ""
+        hb = prog.bodies.get(c)
+        if hb is None or c == target or hb.path == body.path:
+            continue
+        for (_, rl, _) in receiver_call_sites(prog, hb, target, depth + 1):
+            if 1 <= rl <= hb.argc and len(t["args"]) >= rl:
+                p = op_place(t["args"][rl - 1])
+                if p is not None and not [e for e in p["p"] if e != "*"]:
+                    out.append((bi, root_of_ref(body, p["l"]), t.get("line")))
+    return out
